@@ -1267,6 +1267,22 @@ GEN(int) @G(n int) {
 
 // Findings: witnesses of known findings (expected to differ or to be rejected on this tree)
 var Findings = []Template{
+	{Name: "EmbeddedIteratorField", Props: []string{"C06", "C11"}, Finding: "D21", Src: `
+type @Wrap struct {
+	ITER(int) // embedded: the field is named after the type
+	n int
+}
+GEN(int) @Nat(n int) {
+	for i := 0; i < n; i++ { YIELD(i) }
+	RETURN
+}
+func @Sum(n int) int {
+	w := @Wrap{ITERFIELD(): GENCALL(int, @Nat, n)}
+	s := 0
+	for w.ITERFIELD().MoveNext() { s += w.ITERFIELD().Current() }
+	for w.MoveNext() { s += 100 } // promoted methods, exhausted by now
+	return s + w.n
+}`, Drives: []Drive{fn("int", "@Sum", "4")}},
 	{Name: "LoopVarPerIteration", Props: []string{"C03"}, Finding: "D17", Src: `
 GEN(int) @G(n int) {
 	var fs []func() int
